@@ -260,6 +260,11 @@ theorem iterate_keeps (hord : OrdSub ord) (fuel : Nat) (root : P) :
     · exact ih _ _ _ (hnext b)
     · rename_i first rest
       have hA : ∀ x ∈ first :: rest, RootSucc g root x := fun x hx => hmv x (hsub x hx)
+      have hfb : Keeps (SentOK (O := O) (RootSucc g root)) (sendFallback c first) := by
+        unfold sendFallback
+        exact Keeps.ite (report_sent_keeps (O := O) (RootSucc g root) first (hA first (by simp))) Keeps.pure
+      apply Keeps.bind hfb
+      intro _
       apply Keeps.bind (rootLoop_keeps g ord (RootSucc g root) fuel c first (hA first (by simp)) _ _ _ hA)
       intro r
       split
